@@ -75,7 +75,7 @@ PROPS['C08'] = dict(
     props='props/C08.v',
     models=['Trie', 'TrieCheck'],
     harness='c08',
-    args=dict(quick=['-w8', '120', '-w16', '120', '-w160', '40'], thorough=['-w8', '3000', '-w16', '3000', '-w160', '600']),
+    args=dict(quick=['-w8', '120', '-w16', '120', '-w160', '40'], escalated=['-w8', '500', '-w16', '500', '-w160', '80', '-store', '80'], thorough=['-w8', '3000', '-w16', '3000', '-w160', '600', '-store', '400']),
     fingerprint_groups=['Trie'],
     rule='histories of 1-4 batches of 1-60 set/overwrite/delete operations on the real SMT (fresh SMT object per batch over one transaction, as '
          'Store.Root() uses it), key widths 8, 16 (raw keys found by search so any hashed bit pattern can be targeted: neighbours differing in the '
@@ -93,4 +93,24 @@ PROPS['C08'] = dict(
     trusted_base=['model/Trie.v is a hand-written mirror of the SMT structure algorithms tied by the correspondence run (shape + recomputed hashes)'],
     level_text='Unbounded theorems over the compressed-trie model: canonical form is unique, the tree is a finite map, any two histories with the same final content give the same tree and root, batch = fold, parallel commit = sequential for every worker schedule, synthetic borders leave no trace, the root digest is injective on states and equals the canonical commitment built in any order. The real SMT is run on adversarially structured histories every check; its persisted tree must equal the model tree and every stored hash must recompute.',
     level_note='Trusted: Coq kernel, hand-written structural model tied by correspondence, ideal hash. Lazy rehash bookkeeping, node-key byte codec and goroutine scheduling inside CommitParallel are validated by the correspondence (shape equality + recomputed SHA-256 + rebatched-history root equality), not proved.',
+)
+
+PROPS['C16'] = dict(
+    props='props/C16.v',
+    models=['Trie', 'TrieCheck', 'Proof', 'ProofCheck'],
+    harness='c16',
+    args=dict(quick=['-states', '24', '-claims', '14', '-store', '6'], escalated=['-states', '90', '-claims', '20', '-store', '12'], thorough=['-states', '400', '-claims', '30', '-store', '60']),
+    fingerprint_groups=['Proof', 'Trie'],
+    rule='for generated states on the real SMT (widths 8, 16, 160; one or two batches with overwrites and deletes): the real GetMerkleProof for present, '
+         'absent and neighbouring keys, offered for the same key and for OTHER keys, as membership and as non-membership claims, with right and '
+         'wrong values and roots, plus mutations (truncate, reorder, duplicate a node, flip the side bit, flip value bytes, flip key bits, malformed '
+         'key bytes: nil / 1 byte / over-long / bad meta byte, nil node); VerifyProof verdict (false / true / error) under recover compared in Coq '
+         'with model/Proof.v, and with the truth of the claim (soundness predicate); store level: NewReadOnly(v).GetProof verified against the root '
+         'committed for v for every committed version; non-trivial: every claim, distinct by literal',
+    modelled='hand-modelled: GetMerkleProof and VerifyProof (as repaired) on the trie model, including the {0,0} node-key encoding quirk after the root. '
+             'Not modelled: node-key byte validation and panic recovery (exercised with malformed keys), the in-memory store VerifyProof allocates.',
+    assumptions=['ideal hash (digest terms)', 'target keys differ from sentinels / border keys (validateTarget returns an error for reserved keys)'],
+    trusted_base=['model/Proof.v is a hand-written mirror of GetMerkleProof/VerifyProof tied by the correspondence run'],
+    level_text='Unbounded theorems: the store\'s own proof verifies for every present key and every absent key of every state (completeness), and for ARBITRARY proof lists an accepted membership / non-membership claim is true of the state (soundness, ideal hash); an honest proof for one key is never evidence about the absence of another present key. The verifier model is compared with the real VerifyProof on honest, cross-key and mutated proofs on every run; store-level completeness (read-only store at version v against the committed root of v) is exercised on the real Store. The unrepaired code violated soundness, completeness at store level and crash-freedom: three fix: commits.',
+    level_note='Trusted: Coq kernel, hand-written mirror tied by correspondence, ideal hash. Crash-freedom on malformed proofs is exercised (mutations under recover), not proved.',
 )
